@@ -59,6 +59,17 @@ fn blp_seeds(_ctx: &SeedCtx) -> Vec<Seed> {
         ("blp2-dxt3-mips", BlpTarget::Blp2(Blp2Format::Dxt3 { has_alpha: true, compress_algorithm: DxtAlgorithm::RangeFit }), true),
         ("blp2-dxt5-mips", BlpTarget::Blp2(Blp2Format::Dxt5 { has_alpha: true, compress_algorithm: DxtAlgorithm::RangeFit }), true),
     ];
+    // textures with exactly one dimension that is not a power of two (what strict validators and mip chains trip over)
+    for (label, w, h, target) in [
+        ("blp2-raw1-a8-12x16-one-npot", 12u32, 16u32, BlpTarget::Blp2(Blp2Format::Raw1 { alpha_bits: AlphaBits::Bit8 })),
+        ("blp1-raw1-a0-8x6-one-npot", 8, 6, BlpTarget::Blp1(BlpOldFormat::Raw1 { alpha_bits: AlphaBits::NoAlpha })),
+    ] {
+        if let Ok(blp) = image_to_blp(test_image(w, h, true), false, target, FilterType::Nearest) {
+            if let Ok(bytes) = wow_blp::encode::encode_blp(&blp) {
+                out.push(blp_seed(label, bytes));
+            }
+        }
+    }
     for (label, target, mips) in targets {
         let img = test_image(16, 8, true);
         let blp = image_to_blp(img, mips, target, FilterType::Nearest).expect("image_to_blp failed on a valid image");
